@@ -287,6 +287,7 @@ func (x *hpRun) history(r *h.Report, ops []string) bool {
 				t.c11Handles(r, done, w, hs)
 				t.c11Store(r, done, w, before, after, v)
 				t.c04(r, done, w, before, after, v)
+				t.c04Lean(x.d, r, done, w, before, after, v)
 			}
 			// ---- correspondence
 			wf := strings.Fields(want)
@@ -366,6 +367,7 @@ func (x *hpRun) twin(r *h.Report, t *hpType, done []string, w *hpWrite, before, 
 		return false
 	}
 	t.c04(r, ops, w, s2, after2, v2)
+	t.c04Lean(x.d2, r, ops, w, s2, after2, v2)
 	fn := hpPartialFn(t.partialPart(w))
 	if w.deletePart() != "" {
 		fn = "deleteFilteredData"
